@@ -10,9 +10,13 @@ VARIABLES l, nbad
 ToD(items) == [k \in {items[j][1] : j \in DOMAIN items} |-> (CHOOSE j \in DOMAIN items : items[j][1] = k)]
 DictOf(items) == LET idx == ToD(items) IN [k \in DOMAIN idx |-> items[idx[k]][2]]
 BagOf(lst) == [x \in {<<lst[j][1], lst[j][2]>> : j \in DOMAIN lst} |-> Cardinality({j \in DOMAIN lst : <<lst[j][1], lst[j][2]>> = x})]
-RECURSIVE Run(_, _, _, _)
-Run(steps, i, dd, h) ==
-   IF i > Len(steps) THEN "ok"
+\* One history.  A FATAL clause (the queue hands out a key that is not of minimum priority, or fails) ends the run; a
+\* divergence of the representation (which of several minima comes first, what the heap list holds) is remembered - the
+\* first one is reported if nothing fatal follows - and the run goes on FROM THE OBSERVED STATE, so that later steps of
+\* the same history are still judged.
+RECURSIVE Run(_, _, _, _, _)
+Run(steps, i, dd, h, note) ==
+   IF i > Len(steps) THEN note
    ELSE LET e == steps[i]
             empty == LiveIn(dd, h) = {}
             nxt == CASE e.op = "set" -> SetF(dd, h, e.k, e.v)
@@ -22,13 +26,19 @@ Run(steps, i, dd, h) ==
                      [] e.op = "setdefault" -> SetDefaultF(dd, h, e.k, e.v)
                      [] e.op = "update" -> UpdateF(dd, h, e.k, e.v)
             want == IF e.op \in {"pop", "smallest"} /\ ~empty THEN FirstLiveIn(dd, h)[2] ELSE -1
+            obs == <<DictOf(e.d), BagOf(e.heap)>>
+            soft == IF e.op \in {"pop", "smallest"} /\ ~empty /\ e.res # want THEN "returned_key_is_not_the_smallest"
+                    ELSE IF obs[1] # nxt[1] THEN "dictionary_differs_after_" \o e.op
+                    ELSE IF obs[2] # nxt[2] THEN "heap_differs_after_" \o e.op
+                    ELSE "ok"
         IN IF e.op \in {"pop", "smallest"} /\ empty /\ ~e.raised THEN "no_error_on_empty_queue"
            ELSE IF ~(e.op \in {"pop", "smallest"} /\ empty) /\ e.raised THEN "raised"
-           ELSE IF e.op \in {"pop", "smallest"} /\ ~empty /\ e.res # want THEN "returned_key_is_not_the_smallest"
-           ELSE IF DictOf(e.d) # nxt[1] THEN "dictionary_differs_after_" \o e.op
-           ELSE IF BagOf(e.heap) # nxt[2] THEN "heap_differs_after_" \o e.op
-           ELSE Run(steps, i + 1, nxt[1], nxt[2])
-Clause(c) == Run(c.steps, 1, EmptyF, EmptyF)
+           \* the contract the routing relies on (fatal for C06 / C07): the key handed out has MINIMUM priority among the live keys
+           ELSE IF e.op \in {"pop", "smallest"} /\ ~empty /\ (e.res \notin DOMAIN dd \/ \E k \in DOMAIN dd : dd[k] < dd[e.res])
+                THEN "popped_key_not_of_minimum_priority"
+           ELSE IF soft = "ok" THEN Run(steps, i + 1, nxt[1], nxt[2], note)
+           ELSE Run(steps, i + 1, obs[1], obs[2], IF note = "ok" THEN soft ELSE note)
+Clause(c) == Run(c.steps, 1, EmptyF, EmptyF, "ok")
 
 Cases == ndJsonDeserialize(IOEnv.TRACE_FILE)
 Bt == INSTANCE Batch WITH Clause <- Clause, Cases <- Cases
